@@ -183,7 +183,7 @@ Inductive demanded :=
 
 Definition spec_outcome (c : call) : demanded :=
   match demanded_raises c with
-  | _ :: _ as rs => DRaise rs
+  | (_ :: _) as rs => DRaise rs
   | [] =>
       match demanded_binding (demands c) (s_params sg) with
       | None => DPythonRejects
